@@ -205,6 +205,46 @@ func checkC12(p *Prog, r *Result, tier string) {
 		}
 	}
 
+	// the class check of the scan evaluator must not depend on the collection being non-empty: some comparison that
+	// returns ErrCasting sits outside every loop of the evaluator
+	for _, ef := range evals {
+		if !c.own[ef].Has(EErrCasting) {
+			continue
+		}
+		inLoop := map[*ssa.BasicBlock]bool{}
+		for _, lp := range naturalLoops(ef) {
+			for _, b := range lp.blocks {
+				inLoop[b] = true
+			}
+		}
+		outside, inside := false, false
+		for _, b := range ef.Blocks {
+			for _, in := range b.Instrs {
+				if ld, ok := in.(*ssa.UnOp); ok {
+					if g, ok := ld.X.(*ssa.Global); ok && g.Object() == a.SentByName["ErrCasting"] {
+						// the block that reports the mismatch: is its deciding branch inside a loop?
+						dec := b
+						if len(b.Preds) == 1 {
+							dec = b.Preds[0]
+						}
+						if inLoop[dec] {
+							inside = true
+						} else {
+							outside = true
+						}
+					}
+				}
+			}
+		}
+		construct := "class check independent of the collection's content"
+		switch {
+		case outside:
+			r.Report("C12.R2", FuncName(ef), construct, Discharged, "", p.Pos(ef.Pos()), nil, true)
+		case inside:
+			r.Report("C12.R2", FuncName(ef), construct, Violated, "the evaluator compares the class of the search value with the field's class only inside its loop over the objects: on an empty collection (or empty intermediate result) a mistyped value succeeds here while the other evaluator returns ErrCasting", p.Pos(ef.Pos()), nil, true)
+		}
+	}
+
 	// the scan comparator's default arm (panic on an unknown operator) must be unreachable from the API:
 	// every caller validates the operator against the same literal set first and reports the sentinel
 	for _, fn := range p.Funcs {
